@@ -164,6 +164,11 @@ def gen_pair(rng, big=False, with_schema=False, c06_class=False, doubled=False, 
                     "ref": rng.choice(others)["name"],
                     "ondelete": "CASCADE" if rng.random() < 0.3 else None,
                 })
+                if table_opts and rng.random() < 0.4:
+                    # (C09) options a re-created foreign key has to carry
+                    t["fks"][-1]["deferrable"] = True
+                    t["fks"][-1]["initially"] = rng.choice([None, "DEFERRED"])
+                    t["fks"][-1]["onupdate"] = rng.choice([None, "CASCADE"])
     # make many FKs coincide between the sides: copy conn fks to meta where possible
     cm = {(t["schema"], t["name"]): t for t in meta}
     for t in conn:
@@ -273,7 +278,8 @@ def _build_table(md, t):
             args.append(sa.UniqueConstraint(*u["cols"], name=u["name"]))
         for f in t["fks"]:
             ref = "%s.%s.id" % (t["schema"], f["ref"]) if t["schema"] else "%s.id" % f["ref"]
-            args.append(sa.ForeignKeyConstraint([f["col"]], [ref], name=f["name"], ondelete=f["ondelete"]))
+            args.append(sa.ForeignKeyConstraint([f["col"]], [ref], name=f["name"], ondelete=f["ondelete"], onupdate=f.get("onupdate"),
+                                                deferrable=f.get("deferrable"), initially=f.get("initially")))
         tkw = {"sqlite_with_rowid": False} if t.get("without_rowid") else {}
         if t.get("comment") is not None:
             tkw["comment"] = t["comment"]
@@ -453,7 +459,7 @@ def gen_pred(rng, pair, is_obj):
     uni = universe(pair)
     tnames = sorted({t["name"] for s in ("conn", "meta") for t in pair[s]})
     fam = rng.choice(["all", "type", "prefix", "flag" if is_obj else "schema", "table" if is_obj else "qualified", "table", "truth",
-                      "truth", "mixed", "mixed"])
+                      "truth", "mixed", "mixed"] + (["oschema"] if is_obj and "s2" in pair["schemas"] else []))
     rules = []
     default = True
     if fam == "type":
@@ -477,6 +483,16 @@ def gen_pred(rng, pair, is_obj):
             r["nameIsNone"] = True
         else:
             r["name"] = "s2"
+        rules.append(r)
+    elif fam == "oschema":
+        # objects of one schema (the default one or the attached one), optionally of one type
+        r = {"verdict": False}
+        if rng.random() < 0.5:
+            r["schemaIsNone"] = True
+        else:
+            r["schema"] = "s2"
+        if rng.random() < 0.5:
+            r["ty"] = rng.choice(types)
         rules.append(r)
     elif fam == "qualified":
         tn = rng.choice(tnames)
@@ -574,7 +590,14 @@ def canon_ops(upgrade_ops):
         for op in container.ops:
             if isinstance(op, alembic_ops.ModifyTableOps):
                 for o2 in op.ops:
+                    n0 = len(out)
                     leaf(o2)
+                    # the container names the table its ops act on (what batch_alter_table / rendering use)
+                    # (the rendered migration runs them inside batch_alter_table(container.table_name, schema=container.schema)):
+                    # an op is judged as an op on the container's table
+                    for o in out[n0:]:
+                        if (o["schema"], o["table"]) != (op.schema, op.table_name):
+                            o["schema"], o["table"] = op.schema, op.table_name
             else:
                 leaf(op)
 
